@@ -44,6 +44,17 @@ def probe_lines(fmt, with_grain_species):
             ("3,H,E,,H+,E,E,,NONE,NONE,exp(-32.7d0+13.5d0*lnTe)*sqrTgas*invTe*Te", "krome:derived"),
             ("4,H+,E,,H,,,,>5.5e3,NONE,3.92d-13*invTe**0.6353d0*n(idx_H)", "krome:nidx"),
         ]
+    elif fmt == "krome-late":
+        # directives after the first reaction line, a second @common further down
+        L += [
+            ("@format:idx,R,R,R,P,P,P,P,Tmin,Tmax,rate", "krome:format"),
+            ("1,H,H,,H2,,,,NONE,NONE,1.0d-10*(T32)**(-0.5)", "krome:rate"),
+            ("@common: user_crate", "krome:common-late"),
+            ("@var: kfac = Tgas*2.0", "krome:var-late"),
+            ("2,H2,,,H,H,,,10,1d4,user_crate*kfac", "krome:uservar"),
+            ("@common: user_Av", "krome:common-late2"),
+            ("3,H,E,,H+,E,E,,NONE,NONE,user_Av*2d0/kfac", "krome:uservar2"),
+        ]
     elif fmt == "leeds":
         def ln(idx, r, p, code, a=1.0, b=0.0, c=100.0):
             return c05.encode("leeds", code, None, r, p, a, b, c, idx, 5, 41000)
@@ -121,7 +132,7 @@ def probe_lines(fmt, with_grain_species):
 
 
 def configs(tier):
-    fsets = [(f,) for f in FORMATS] + [("naunet-g1",)]
+    fsets = [(f,) for f in FORMATS] + [("naunet-g1",), ("krome-late",), ("krome-late", "kida")]
     if tier != "quick":
         fsets += list(itertools.combinations(FORMATS, 2))
     out = []
@@ -168,7 +179,7 @@ def build_network(cfg):
             net = Network(**kw)
             last = None
             for fmt in cfg["formats"]:
-                rf = "naunet" if fmt == "naunet-g1" else fmt
+                rf = "naunet" if fmt == "naunet-g1" else "krome" if fmt == "krome-late" else fmt
                 cls = supported_reaction_class[rf]
                 cls.initialize()
                 for ln, f, tag in kept:
